@@ -123,7 +123,7 @@ func c17Guard(c *Ctx) {
 				_ = st
 			}
 		}
-		c.Floor("guard accesses "+gname, nAcc, 4, "Value, setValue (nil test, make, update), clearValue (nil test, delete)")
+		c.Floor("guard accesses "+gname, nAcc, 3, "Value, setValue (nil test, make, update), clearValue (nil test, delete)")
 	}
 }
 
@@ -378,7 +378,7 @@ func c17SetClear(c *Ctx) {
 			}
 		}
 	}
-	c.Floor("setclear sites", n, 3, "SplatExpr.Value: two probes in resultTy and the element loop")
+	c.Floor("setclear sites", n, 2, "SplatExpr.Value: two probes in resultTy and the element loop")
 }
 
 // R4: type probing in SplatExpr uses a child context as key.
@@ -506,8 +506,8 @@ func c17SharedWrites(c *Ctx) {
 		}
 	}
 	nFns, nWrites := runEffects(c, "effects", roots, evalPkgs, cut, "reachable from concurrent evaluation entry points, so two goroutines may write the same memory")
-	c.Floor("effects functions", nFns, 400, "functions reachable from evaluation entry points")
-	c.Floor("effects writes", nWrites, 300, "stores/map updates/appends classified")
+	c.Floor("effects functions", nFns, 300, "functions reachable from evaluation entry points")
+	c.Floor("effects writes", nWrites, 220, "stores/map updates/appends classified")
 	c.Floor("effects root types", nTypes, 40, "implementers of Expression, Body, Node, Spec, Traverser")
 }
 
